@@ -1,3 +1,4 @@
+#![allow(dead_code)]
 //! flipdot deterministic simulator — entry point.
 //!
 //!   flipdot-sim check <ID> <quick|thorough>     run a property's scenarios, write evidence
